@@ -216,7 +216,7 @@ def h_refuse(ctx, cfg):
     tid = full.treatment_ids.tolist()
     combo_rows = [i for i in range(R) if tid[i][0] != -1 and tid[i][1] != -1]
     target = combo_rows[int(ctx.int("neg", 0, len(combo_rows) - 1))]
-    for what, val in (("negative", -0.25), ("NaN", float("nan"))):
+    for what, val in (("negative", -0.25), ("NaN", float("nan")), ("negative (below float32 resolution)", -1e-60)):
         o2 = list(obs)
         o2[target] = val
         s2 = concrete_screen(ctx, rows, observations=o2, mask=[True] * R)
